@@ -259,6 +259,8 @@ class Machine:
             "iter_cow": (2, self.op_iter_cow),
             "push": (2, self.op_push),
             "bulk": (2, self.op_bulk),
+            # the same map entered through get_mut_with / get_cow_with+into_mut instead of insert: same meaning
+            "bulk_via": (3, lambda a, how, pairs: self.op_bulk(a, pairs)),
             "apply": (1, self.op_apply),
             "pop_front": (2, self.op_pop_front),
             "pop_front_slow": (2, self.op_pop_front_slow),
